@@ -852,7 +852,7 @@ fn prim_into_ring(c: &PrimCase, _ctx: &Ctx) -> Out {
 fn main() {
     let mut ck = Check::new(
         "C13",
-        "rings built from modulus classes (1, 2, 2^k for k<64 / 64..127 / multi-word, one word odd/even with and without normalisation shift, two words normalised/shifted/low word zero, 3, 4, 5-32, 33, 40 words, even and low-words-zero multi-word, shared-factor moduli m=g·l) × operands up to 193 words longer than moduli of 1..386 words (sub reduce_long); elements built relative to the modulus (0, 1, m-1, m, m+1, 2m-1, k·m, m/2, random below m, random up to twice the modulus length, b=a, b=m-a, multiples of g; both signs; primitives of every width) × exponents (0, 1, 2, small, 2^k, 2^64±1, two-word, up to 12 words); every operator form of + - * /, Neg, dbl, sqr, pow, inv, ==, residue, modulus, IntoRing and the num_modular::Reducer impl compared with operate-then-reduce in num-bigint (square-and-multiply cross-checked with modpow); residues in [0,m); inv is Some exactly for gcd=1; division by a non-invertible element and any mixing of two ConstDivisor instances must panic with the documented message. Non-trivial: modulus >= 2 words or exponent >= 2; distinct by case digest.",
+        "rings built from modulus classes (1, 2, 2^k for k<64 / 64..127 / multi-word, one word odd/even with and without normalisation shift, two words normalised/shifted/low word zero, 3, 4, 5-32, 33, 40 words, even and low-words-zero multi-word, shared-factor moduli m=g·l) × operands up to 193 words longer than moduli of 1..386 words (sub reduce_long); elements built relative to the modulus (0, 1, m-1, m, m+1, 2m-1, k·m, m/2, random below m, random up to twice the modulus length, b=a, b=m-a, multiples of g; both signs; primitives of every width) × exponents (0, 1, 2, small, 2^k, 2^64±1, two-word, up to 12 words; sub pow_long_exponents: dense exponents of 769..72 000 bits, i.e. every window length up to 11, in rings of 1..6 words); every operator form of + - * /, Neg, dbl, sqr, pow, inv, ==, residue, modulus, IntoRing and the num_modular::Reducer impl compared with operate-then-reduce in num-bigint (square-and-multiply cross-checked with modpow); residues in [0,m); inv is Some exactly for gcd=1; division by a non-invertible element and any mixing of two ConstDivisor instances must panic with the documented message. Non-trivial: modulus >= 2 words or exponent >= 2; distinct by case digest.",
     );
     ck.assume("num-modular 0.6 only for the `Reducer` trait definition (its primitive-word arithmetic is part of what dashu delegates to, not of the oracle)");
     let th = ck.thorough();
@@ -870,6 +870,57 @@ fn main() {
         (14_000, 420_000),
         move || ring_case(prop_oneof![3 => modulus_small(), 3 => modulus_large(th), 1 => modulus_with_factor().prop_map(|(m, _, _)| m)].boxed(), true),
         reducer_ops,
+    );
+    // long exponents: the sliding window of modular/pow.rs grows with the exponent length
+    // (window 9 from 11 521 bits, 10 from 28 161, 11 from 67 585), its table of odd powers with it
+    ck.sub(
+        "pow_long_exponents",
+        (250, 6_000),
+        || {
+            let ebits = prop_oneof![3 => 769usize..=4000, 3 => 4001usize..=11_520, 4 => 11_521usize..=28_160, 2 => 28_161usize..=67_584, 1 => 67_585usize..=72_000];
+            (ebits, 1usize..=6, 0u8..4, 0u8..gen::N_PATTERNS, any::<u64>(), any::<u64>(), any::<u64>()).prop_map(|(bits, lm, epat, pm, sm, sa, se)| {
+                let mut mw = gen::expand(lm, pm, sm);
+                if lm == 1 && mw[0] < 2 {
+                    mw[0] = 3;
+                }
+                let le = (bits + 63) / 64;
+                // dense exponents mostly (random / all ones), sometimes the block pattern
+                let mut ew = gen::expand(le, [1u8, 1, 2, 12][epat as usize], se);
+                let top = bits - 64 * (le - 1);
+                ew[le - 1] &= if top == 64 { u64::MAX } else { (1u64 << top) - 1 };
+                ew[le - 1] |= 1 << (top - 1);
+                RingCase { m: Nat(mw), a: Int { neg: false, mag: Nat(gen::expand(lm, 1, sa)) }, b: Int { neg: false, mag: Nat(vec![1]) }, e: Nat(ew) }
+            })
+        },
+        |c: &RingCase, ctx: &Ctx| {
+            let mut out = Out::new();
+            let (nm, ne) = (c.m.big(), c.e.big());
+            let lm = c.m.trimmed_len();
+            out.nontrivial(true);
+            mod_labels(&mut out, &c.m);
+            if lm >= 3 {
+                out.label(window_label(ne.bits()));
+            }
+            out.label(match ne.bits() {
+                0..=11_520 => "long exponent: up to 11 520 bits",
+                11_521..=28_160 => "long exponent: 11 521..28 160 bits (window 9)",
+                28_161..=67_584 => "long exponent: 28 161..67 584 bits (window 10)",
+                _ => "long exponent: above 67 584 bits (window 11)",
+            });
+            let ring = match catch(|| ConstDivisor::new(c.m.ubig())) {
+                Ok(r) => r,
+                Err(m) => {
+                    out.fail(format!("ConstDivisor::new: unexpected panic {}", normalise(&m)));
+                    return out;
+                }
+            };
+            let ra = red(&c.a.big(), &nm);
+            let x = ring.reduce(c.a.ibig());
+            let pw = modpow_ref(&ra, &ne, &nm);
+            let e = c.e.ubig();
+            chk_pow(&mut out, ctx, "Reduced::pow (long exponent)", &catch(|| x.pow(&e).residue()), &pw, &nm, &ne);
+            out
+        },
     );
     // reduction of operands much longer than the modulus: the division inside `reduce` runs with
     // its own scratch memory and switches algorithm at 32-word quotients / divisors
